@@ -30,7 +30,7 @@ def liftcfg(B, ks, js, cs, ds):
     ds = [v + 4 for v in ds]
     return ("SPECIFICATION LSpec\nCONSTANTS\n  B = %d\n  W = %d\n  Ops = {\"add\"}\n  TableFile = \"none.json\"\n"
             "  KS = %s\n  JS = %s\n  CS = %s\n  DS = %s\n"
-            "INVARIANTS LawTranslate LawScale LawBox LawRshBig\nCHECK_DEADLOCK FALSE\n") % (B, B + 1, f(ks), f(js), f(cs), f(ds))
+            "INVARIANTS LawTranslate LawScale LawBox LawRshBig LawSparse\nCHECK_DEADLOCK FALSE\n") % (B, B + 1, f(ks), f(js), f(cs), f(ds))
 
 
 def state_from_tlc(out):
@@ -88,6 +88,8 @@ def run(ctx):
                 tables.append(("scale k=%d,%d" % (k, k2), ["-lift", "scale", "-k", str(k), "-k2", str(k2)], ["mul", "quo", "lsh", "rsh"]))
         for k in exps + [40, 48, 56]:
             tables.append(("box k=%d" % k, ["-lift", "box", "-k", str(k)], ["and", "or"]))
+        for k in (7, 31, 32, 33, 36, 40, 48, 63, 64, 100):
+            tables.append(("sparse k=%d" % k, ["-lift", "sparse", "-k", str(k)], ["andsc", "orsc"]))
         for c in (64, 1000, 2 ** 20, 2 ** 31 - 1):
             tables.append(("rshbig +%d" % c, ["-lift", "rshbig", "-c", str(c)], ["rshbig"]))
     else:
@@ -101,6 +103,9 @@ def run(ctx):
         for k in (rng.choice((32, 33)), rng.choice(exps)):
             tables.append(("box k=%d" % k, ["-lift", "box", "-k", str(k)], ["and", "or"]))
         tables.append(("rshbig", ["-lift", "rshbig", "-c", str(rng.choice((64, 1000, 2 ** 20)) + rng.randrange(0, 9))], ["rshbig"]))
+        # and/or on sparsely scaled operands [a*2^k, b*2^k]: bounds whose set bits are far apart (the bit-twiddling paths)
+        for k in (rng.choice((33, 34, 36, 40, 47)), rng.choice(exps)):
+            tables.append(("sparse k=%d" % k, ["-lift", "sparse", "-k", str(k)], ["andsc", "orsc"]))
 
     rows_total = lifted_total = 0
     samples = []
@@ -141,7 +146,7 @@ def run(ctx):
         rows = json.loads(table)
         nb = 2 * B + 2
         n = st["universe"]
-        for oi, op in enumerate(["add", "sub", "mul", "quo", "lsh", "rsh", "and", "or", "unite", "intersect", "rshbig"]):
+        for oi, op in enumerate(["add", "sub", "mul", "quo", "lsh", "rsh", "and", "or", "unite", "intersect", "rshbig", "andsc", "orsc"]):
             if op not in ops:
                 continue
             base = oi * n * n
